@@ -9,7 +9,7 @@ Line protocol of property C08 (one output line per input line):
   mux  <key=value>… f:<mediaType>:<dts ns>:<pts ns>:<payload hex>…      (with join=1: oracle only,
        Spec.checkJoined on impl= — a client that joined the running stream somewhere)
        keys: cfg=gen|pinned|fixed codec=h264|h265|other w h fr vdr sps pps vps hv hs aac asr ass ach adr asc
-             date known impl
+             date known impl sv (H.264: h264.RawSPS.Decode(sps) succeeds)
        → `model=<same|hex|err> dead=<0|1> app=<0|1> spec=<ok|fail> mspec=<ok|fail>` (same: equal to impl=)
        (model: all bytes of NewWriter+NewMuxer fed with the frames; spec: Spec.checkMux on impl=…;
         app: the hypotheses of c08_end_to_end hold for this input)
@@ -140,10 +140,11 @@ def handleMux (joinAt : Bool) (ts : List String) : String :=
           (get kv "known").bind String.toNat?, getBytes kv "impl" with
     | some hv, some hs, some asr, some ass, some ach, some adr, some asc, some date, some known, some impl =>
       let vm : VideoMeta := { codec := codec, width := w, height := h, frameRate := UInt64.ofNat fr, dataRate := UInt64.ofNat vdr,
-                              sps := sps, pps := pps, vps := vps, hevcVps := hv, hevcSps := hs }
+                              sps := sps, pps := pps, vps := vps, hevcVps := hv, hevcSps := hs,
+                              avcSpsOk := get kv "sv" == some "1" }
       let am : AudioMeta := { aac := get kv "aac" == some "1", sampleRate := asr, sampleSize := ass,
                               channels := ach, dataRate := UInt64.ofNat adr, asc := asc }
-      let src : Src := { codec := codec, aac := am.aac, sps := sps, pps := pps, vps := vps, asc := asc }
+      let src : Src := srcOf vm am
       let want := fromStart src known frames
       let app := codec ≠ .other && hevcFaithful vm && (want.filter (carried src)).all frameOk &&
                  (want = [] || (videoMetaReady vm && sps.length < 65536 && pps.length < 65536 && vps.length < 65536
